@@ -64,7 +64,8 @@ theorem equalFold_mem_lowerIndex_keys (names : List String) (n x : String) (hn :
 example : equalFold "ABC" "abc" = true ∧ "ABC" ∈ lowerIndex ["x", "ABC"] (goLower "abc") := by decide
 
 /-- Leaf soundness, hosts table: for `name = x` and `name =~ x` on the table's own string column `name`
-    the keys the leaf contributes contain the name of every indexed host row the leaf accepts. -/
+    (locally stored and not optional, `StrLeaf`) the keys the leaf contributes contain the name of every
+    indexed host row the leaf accepts. -/
 theorem leafKeys_hosts_name_sound (q : Quirks) (cx : Ctx) (t : Table) (r : Row) (l : Leaf) (ks : List String)
     (hl : StrLeaf t l) (hn : l.col.name = "name") (ht : t.name = "hosts")
     (hmem : r.str t "name" ∈ hostNames cx)
@@ -73,7 +74,8 @@ theorem leafKeys_hosts_name_sound (q : Quirks) (cx : Ctx) (t : Table) (r : Row) 
   leafSound_hosts_name q cx t r l hl hn ht hmem ks hks hm
 
 /-- Leaf soundness, services table: for `host_name = x` (and `host_name ~ x` when the host is a known host)
-    the contributed keys contain the host name of every service row the leaf accepts. -/
+    on the table's own non-optional string column (`StrLeaf`) the contributed keys contain the host name of
+    every service row the leaf accepts. -/
 theorem leafKeys_services_host_name_sound (q : Quirks) (cx : Ctx) (t : Table) (r : Row) (l : Leaf) (ks : List String)
     (hl : StrLeaf t l) (hn : l.col.name = "host_name")
     (hmem : l.op = .eq ∨ r.str t "host_name" ∈ hostNames cx)
@@ -81,17 +83,18 @@ theorem leafKeys_services_host_name_sound (q : Quirks) (cx : Ctx) (t : Table) (r
     r.str t "host_name" ∈ ks :=
   leafSound_services_host_name q cx t r l hl hn hmem ks hks hm
 
-/-- Leaf soundness, any table with a one-column primary key: for `key = x` the contributed key list
-    contains the key of every row the leaf accepts. -/
+/-- Leaf soundness, any table with a one-column primary key: for `key = x` on the table's own non-optional
+    string column (`StrLeaf`) the contributed key list contains the key of every row the leaf accepts. -/
 theorem leafKeys_primary_sound (q : Quirks) (cx : Ctx) (t : Table) (r : Row) (l : Leaf) (key : String) (ks : List String)
     (hl : StrLeaf t l) (hpk : t.primaryKey = [key])
     (hks : leafIndexKeys cx .primary t l = some ks) (hm : matchLeaf q (mkView cx t r) l = true) :
     r.str t key ∈ ks :=
   leafSound_primary q cx t r l key hl hpk ks hks hm
 
-/-- Leaf soundness, group look-ups on the hosts table (`groups >= g`, `groups ~ pattern`): if every group the
-    host lists has a hostgroup row that lists the host as member, and hostgroups are keyed by unique
-    names, the members collected from the hostgroups contain the host. -/
+/-- Leaf soundness, group look-ups on the hosts table (`groups >= g`, `groups ~ pattern`): if the column's
+    getter yields the list `gs` on this backend (`ListLeaf`; for an optional column the backend lacks that
+    is the empty list), every group in `gs` has a hostgroup row that lists the host as member, and
+    hostgroups are keyed by unique names, the members collected from the hostgroups contain the host. -/
 theorem leafKeys_hosts_groups_sound (q : Quirks) (cx : Ctx) (t : Table) (r : Row) (l : Leaf) (gs ks : List String)
     (hl : ListLeaf cx t r l gs) (hn : l.col.name = "groups")
     (hg : HostInGroups cx (r.str t "name") gs) (hk : GroupKeyed cx "hostgroups")
@@ -128,14 +131,15 @@ example : groupsConsistent Demo.cx.schema Demo.cx.b = true ∧ Demo.rowA ∈ Dem
     ∧ Demo.rowA.strList "groups" = ["g"] := ⟨by decide, by simp [Demo.cx, Backend.rows, Demo.backend], rfl⟩
 
 /-- non-vacuity: `Filter: name = a` on the demo hosts table is a well-typed string leaf -/
-example : StrLeaf Demo.hosts (Demo.nameLeaf .eq "a") := ⟨by decide, rfl, rfl, rfl⟩
+example : StrLeaf Demo.hosts (Demo.nameLeaf .eq "a") := ⟨by decide, rfl, rfl, rfl, rfl⟩
 
 /-- Completeness of `GetPreFilteredData`.  Assume the rows have pairwise different keys, the hosts /
     services tables have their usual primary keys, and every filter term the index can use is of a
     `Covered` shape for the row (well-typed column plus the data assumption of that shape).  Then every
     stored row that satisfies the filter list is among the candidates.
-    Partial: terms on ill-typed or optional columns named like index columns, and backends whose group
-    tables disagree with the `groups` lists, are excluded by `Covered`. -/
+    Partial: terms on ill-typed or optional columns named like index columns (optional either in the
+    leaf's copy of the flags or in the column itself, which the typed getters now consult), and backends
+    whose group tables disagree with the `groups` lists, are excluded by `Covered`. -/
 theorem preFiltered_complete_partial (q : Quirks) (cx : Ctx) (t : Table) (rows : List Row) (fs : List Filter)
     (r : Row) (hnd : (rows.map (Row.key t)).Nodup) (hshape : KeyShape t) (hr : r ∈ rows)
     (hcov : ∀ kind, indexKind? t = some kind → ∀ l ∈ leavesOfList fs,
@@ -309,11 +313,11 @@ example :
   simp only [leavesOfList, leavesOf, List.append_nil, List.cons_append, List.nil_append, List.mem_cons,
     List.not_mem_nil, or_false] at hl
   rcases hl with rfl | rfl | rfl
-  · refine Covered.hostsName ⟨by decide, rfl, rfl, rfl⟩ rfl ?_
+  · refine Covered.hostsName ⟨by decide, rfl, rfl, rfl, rfl⟩ rfl ?_
     rcases hr' with rfl | rfl <;> decide
   · simp [leafIndexKeys, Demo.stateLeaf, Demo.stateCol] at hsome
   · refine Covered.hostsGroups (gs := r.strList "groups") ?_ rfl hgrp ⟨rfl, by decide⟩
-    apply listLeaf_of_local Demo.cx Demo.hosts r Demo.groupLeaf rfl rfl rfl (by decide)
+    apply listLeaf_of_local Demo.cx Demo.hosts r Demo.groupLeaf rfl rfl rfl rfl (by decide)
     intro v hv
     rcases hr' with rfl | rfl
     · exact ⟨[], by simpa [Row.cell?, Demo.rowB, Demo.groupLeaf, Demo.groupsCol] using hv.symm⟩
